@@ -151,7 +151,15 @@ func (rn *runner) judge(c Case, sh *shape, res Result) (fs []finding, expected b
 				add("error-instead-of-forbidden/"+m+"/under-fault", fmt.Sprintf("%s on store %s by %s, grants %v, fault %+v: got %+v", m, c.Target, c.Caller, c.Grants, c.Fault, o))
 			}
 		}
-		if (o.Kind != "ok" && o.Kind != "mixed") || !expected {
+		// A denied call must not have reached the target store's data. Under a partial fault an RPC that
+		// authorizes more than once (AuthZEN front ends) may legitimately pass one authorization, read, and
+		// fail the next: there the rule is applied only when no authorization can pass (the reference
+		// denies, or every read of the access-control store fails).
+		mustNotTouch := (o.Kind != "ok" && o.Kind != "mixed") || !expected
+		if faulty {
+			mustNotTouch = !expected || (c.Fault.Mode == "from" && c.Fault.K == 1)
+		}
+		if mustNotTouch {
 			if t := touched(sh, res.Calls, store); len(t) > 0 {
 				add("data-touched-before-authorization/"+m+"/"+strings.Join(t, "+"), fmt.Sprintf("%s (%s) on store %s by caller %q with grants %v ended %s, yet the datastore saw calls on the target store: %v", m, sh.Name, c.Target, c.Caller, c.Grants, o.Kind, callsOn(res.Calls, store)))
 			}
